@@ -129,13 +129,19 @@ class TOpt(T):
 
 
 class TTuple(T):
-    def __init__(self, items):
+    """Tuple; with `names` it is a record (frozen dataclass treated as a value)."""
+
+    def __init__(self, items, names=None, recname=None):
         self.items = tuple(items)
+        self.names = tuple(names) if names else None
+        self.recname = recname
 
     def key(self):
-        return self.items
+        return (self.items, self.names, self.recname)
 
     def name(self):
+        if self.recname:
+            return f"record<{self.recname}>"
         return "tuple[" + ",".join(map(repr, self.items)) + "]"
 
 
